@@ -67,3 +67,23 @@ func init() {
 		return mkStr(out)
 	}
 }
+
+func init() {
+	// three-way string comparison (strings.Compare, cmp.Compare[string] end in an assembly routine)
+	cmp3 := func(st *pstate, fr *frame, fn *ssa.Function, args []value) value {
+		if a, ok := args[0].(string); ok {
+			if b, ok := args[1].(string); ok {
+				return strings.Compare(a, b)
+			}
+		}
+		if st.branch(strLtTerm(args[0], args[1])) {
+			return -1
+		}
+		if st.branch(strEqTerm(args[0], args[1])) {
+			return 0
+		}
+		return 1
+	}
+	intrinsics["strings.Compare"] = cmp3
+	intrinsics["internal/bytealg.CompareString"] = cmp3
+}
